@@ -3,6 +3,8 @@ import Driver.Galloc
 import Driver.TapeDrv
 import Driver.RecBufDrv
 import Driver.Storage
+import Driver.Views
+import Driver.Interp
 /-! `adept_model <family>`: line protocol on stdin/stdout, one result line per input line.
     Every import of this file must stay free of Mathlib (the driver is linked natively). -/
 open Adept Adept.Drv
@@ -13,4 +15,6 @@ def main (args : List String) : IO UInt32 := do
   | ["tape"] => runFamily TapeDrv.step {}; return 0
   | ["recbuf"] => runFamily RecBufDrv.step (); return 0
   | ["storage"] => runFamily StorageDrv.step {}; return 0
+  | ["views"] => runFamily ViewsDrv.step {}; return 0
+  | ["interp"] => runFamily InterpDrv.step (); return 0
   | _ => IO.eprintln "usage: adept_model <family>"; return 2
